@@ -38,8 +38,21 @@ def main():
     demo_name = f"demo_{pid.lower()}_{which}"
     meta = {"id": sid, "breaks_property": pid, "source": "independent sub-agent given only the property text and a scratch worktree", "confirmed": {}, "detection": {}}
     notes = open(f"{src}/NOTES.md").read() if os.path.exists(f"{src}/NOTES.md") else ""
+    if pid.startswith("F"):
+        # file-based round: the first line of NOTES.md names the broken properties
+        m = re.search(r"BREAKS:\s*([C0-9, ]+)", notes)
+        broken = [x.strip() for x in m.group(1).split(",") if x.strip()] if m else []
+        if not broken:
+            print(f"[{sid}] no BREAKS line in NOTES.md")
+            sys.exit(2)
+        meta["breaks_property"] = broken[0]
+        meta["also_breaks"] = broken[1:]
+        if "--checks" not in args:
+            checks = broken
     needs_decode = "cfg(feature = \"decode\")" in open(f"{src}/demo.rs").read()
     feat = " --features decode" if needs_decode else ""
+    if 'cfg(feature = "experimental")' in open(f"{src}/demo.rs").read():
+        feat = " --features experimental"
     needs_hook = "flacenc_verif" in open(f"{src}/demo.rs").read()
     demo_env = "RUSTFLAGS='--cfg flacenc_verif' " if needs_hook else ""
     if needs_hook:
@@ -75,6 +88,9 @@ def main():
             sys.exit(3)
     if not skip_confirm and not demo_sh:
         sh("git checkout -- src", cwd=wt)
+        os.makedirs(f"{wt}/tests", exist_ok=True)
+        for old in __import__("glob").glob(f"{wt}/tests/demo_*.rs"):
+            os.remove(old)
         shutil.copy(f"{src}/demo.rs", f"{wt}/tests/{demo_name}.rs")
         rc0, out0 = sh(f"{demo_env}cargo test --offline -j 8{feat} --test {demo_name} 2>&1 | tail -n 15", cwd=wt)
         ok0 = "test result: ok" in out0 and "FAILED" not in out0 and "0 passed" not in out0
